@@ -3,6 +3,7 @@
 -/
 import PyIkev2.Model.Cookie
 import PyIkev2.Proofs.Machine
+import PyIkev2.Proofs.HandlersCookie
 
 namespace PyIkev2.Props.C18
 open PyIkev2 PyIkev2.Impl
@@ -100,5 +101,42 @@ theorem c18_refusal_leaves_nothing (H : Handlers τ) (t t' : τ) (s : Sa) (now :
 example : negotiationRequest (fun k d => k ++ d) (some [9]) [1] [2] [3] [] (some 19) 19 = (.cookieRequired [9, 1, 2, 3], [.mac]) := by decide
 example : negotiationRequest (fun k d => k ++ d) (some [9]) [1] [2] [3] [[9, 1, 2, 3]] (some 19) 19 =
     (.accepted 19, [.mac, .selectProposal, .dh]) := by decide
+
+/-! ### in the model of the real handler (Model/Handlers.lean)
+
+  The DH key pair, the shared secret and the expected cookie are oracles of that model, consulted in the order the code
+  consults them.  "No DH work without a valid cookie" is then a statement about which oracle values a call consumes. -/
+
+/-- whatever the request is: with the cookie secret set and no valid cookie, the negotiation routine raises — having consumed
+    at most the cookie oracle (hence neither DH oracle), assigned nothing to the IKE_SA object and asked nothing of the kernel -/
+theorem c18_concrete_no_dh_without_cookie (s : HSt) (m : Msg) (enc : Bool) (expected : Bytes) (rest : List TVal)
+    (hc : s.me.core.cookie = true) (ht : s.tape.vals = TVal.bytes expected :: rest)
+    (hbad : ∀ p sp d tl, getNotifies m nCOOKIE false = (p, sp, d) :: tl → d ≠ expected) :
+    (∃ e, (negotiateIkeRequest .me m enc s).1 = .error e) ∧ (negotiateIkeRequest .me m enc s).2.me = s.me ∧
+    (negotiateIkeRequest .me m enc s).2.succ = s.succ ∧ (negotiateIkeRequest .me m enc s).2.nl = s.nl ∧
+    ((negotiateIkeRequest .me m enc s).2.tape.vals = s.tape.vals ∨ (negotiateIkeRequest .me m enc s).2.tape.vals = rest) :=
+  negotiateIkeRequest_cookie_first s m enc expected rest hc ht hbad
+
+/-- the complete answer of `process_ike_sa_init_request` to a well-formed request without the valid cookie: the COOKIE
+    notification carrying the expected value; the object, its successor, the kernel untouched; exactly one oracle value consumed -/
+theorem c18_concrete_cookie_answer (me : XSa) (succ : Option XSa) (m : Msg) (expected : Bytes) (rest : List TVal) (bad : Bool)
+    (p1 p2 p3 : Payload) (ps : List Proposal) (nonce : Bytes) (g : Nat) (ke : Bytes)
+    (hst : me.core.st = stINITIAL) (hc : me.core.cookie = true)
+    (h1 : (payloadsOf m false).find? (fun p => decide (p.ptype = ptSA)) = some p1) (b1 : p1.body = .sa ps)
+    (h2 : (payloadsOf m false).find? (fun p => decide (p.ptype = ptNONCE)) = some p2) (b2 : p2.body = .nonce nonce)
+    (h3 : (payloadsOf m false).find? (fun p => decide (p.ptype = ptKE)) = some p3) (b3 : p3.body = .ke g ke)
+    (hbad : ∀ p sp d tl, getNotifies m nCOOKIE false = (p, sp, d) :: tl → d ≠ expected) :
+    let o := runH (processIkeSaInitRequest m) me succ { vals := TVal.bytes expected :: rest, bad := bad }
+    o.res = .ikeError (mkNotify 0 nCOOKIE [] expected) ∧ o.me = me ∧ o.succ = succ ∧ o.nl = [] ∧ o.tape.vals = rest :=
+  processIkeSaInitRequest_cookie me succ m expected rest bad p1 p2 p3 ps nonce g ke hst hc h1 b1 h2 b2 h3 b3 hbad
+
+/-- the valid cookie (first COOKIE notification = the expected value) passes the check and only the cookie oracle is consumed;
+    without the cookie secret nothing is checked and nothing consumed -/
+theorem c18_concrete_valid_cookie_passes (x : XSa) (m : Msg) (s : HSt) (expected : Bytes) (rest : List TVal) (p : Nat) (sp : Bytes)
+    (tl : List (Nat × Bytes × Bytes)) (hc : x.core.cookie = true) (ht : s.tape.vals = TVal.bytes expected :: rest)
+    (hn : getNotifies m nCOOKIE false = (p, sp, expected) :: tl) :
+    cookieGate x m s = (.ok (), { s with tape := { s.tape with vals := rest } }) ∧
+    ∀ y : XSa, y.core.cookie = false → cookieGate y m s = (.ok (), s) :=
+  ⟨cookieGate_accepts x m s expected rest p sp tl hc ht hn, fun y hy => cookieGate_off y m s hy⟩
 
 end PyIkev2.Props.C18
